@@ -32,7 +32,8 @@ struct G {
     }
     bool live(int t, int s) { return seeds.count({t, s}) > 0; }
     int free_slot(int t) { std::vector<int> v; for (int s = 0; s < 6; ++s) if (!live(t, s)) v.push_back(s); return v.empty() ? -1 : v[rng.below(v.size())]; }
-    int live_slot(int t) { std::vector<int> v; for (int s = 0; s < 8; ++s) if (live(t, s)) v.push_back(s); return v.empty() ? -1 : v[rng.below(v.size())]; }
+    int free_slot_wide(int t) { for (int s = 0; s < 62; ++s) if (!live(t, s)) return s; return -1; }
+    int live_slot(int t) { std::vector<int> v; for (int s = 0; s < 64; ++s) if (live(t, s)) v.push_back(s); return v.empty() ? -1 : v[rng.below(v.size())]; }
 
     u64 maybe_fail() { return (alloc_fail_pct && (int)rng.below(100) < alloc_fail_pct) ? 1 : 0; }
 
@@ -133,9 +134,17 @@ struct G {
         unsigned idx[16]; model::phrase_nfkd(s, li, coin, idx);
         std::string r;
         bool ascii_sep = (variant & 8) != 0;
+        static const char* SEPS[3] = {" ", "\xE3\x80\x80", "\xC2\xA0"};      // all normalise (NFKD) to one ASCII space
+        int wide = (variant & 128) ? (int)rng.below(16) : -1;
         for (int i = 0; i < 16; ++i) {
-            if (i) r += ascii_sep ? std::string(" ") : L.sep;
-            r += spell(L, (int)idx[i], variant & 7);
+            if (i) r += (variant & 64) ? std::string(SEPS[rng.below(3)]) : (ascii_sep ? std::string(" ") : L.sep);
+            std::string w = spell(L, (int)idx[i], variant & 7);
+            if (i == wide) {    // typed with a full-width input method: compatibility forms of the ASCII letters
+                std::string fw;
+                for (unsigned char c : w) { if (c >= 'a' && c <= 'z') { unsigned cp = 0xFF41 + (c - 'a'); fw += (char)0xEF; fw += (char)(0x80 | ((cp >> 6) & 0x3F)); fw += (char)(0x80 | (cp & 0x3F)); } else fw += (char)c; }
+                w = fw;
+            }
+            r += w;
         }
         if (variant & 16) r += " ";
         if (variant & 32) r = model::nfc_raw(r);     // as a user types it (composed)
@@ -148,7 +157,7 @@ struct G {
         std::vector<std::string> w;
         for (int i = 0; i < 16; ++i) w.push_back(L.words[idx[i]]);
         std::string sep = " ";
-        switch (how % 13) {
+        switch (how % 15) {
         case 0: w[rng.below(16)] = L.words[rng.below(2048)]; break;                                   // another word of the list
         case 1: { int lj = (int)rng.below(model::langs.size()); w[rng.below(16)] = model::langs[lj].words[rng.below(2048)]; break; }   // foreign word
         case 2: { size_t i = rng.below(16); auto cp = split_cp(w[i]); std::string t; for (size_t k = 0; k < 3 && k < cp.size(); ++k) t += cp[k]; w[i] = t; break; }  // too short
@@ -159,6 +168,8 @@ struct G {
         case 7: w[0] = " " + w[0]; break;                                                                  // leading space
         case 8: { size_t a = rng.below(16), b = rng.below(16); std::swap(w[a], w[b]); break; }             // transposition
         case 9: w[15] += "  "; break;                                                                      // two trailing spaces
+        case 13: { size_t i = rng.below(16); if (!w[i].empty() && w[i][0] >= 'a' && w[i][0] <= 'z') w[i][0] = (char)(w[i][0] - 32); break; }   // a capitalised word (phone keyboards)
+        case 14: { for (auto& x : w) for (auto& c : x) if (c >= 'a' && c <= 'z') c = (char)(c - 32); break; }                       // caps lock
         case 11: { w.erase(w.begin() + rng.below(16)); size_t i = rng.below(14); w[i] += " "; break; }       // a missing word made up for by an empty one (16 tokens)
         case 12: { w.erase(w.begin() + rng.below(16)); w[0] = " " + w[0]; break; }                       // the same with a leading space
         case 10: { std::string tail; int n = 40 + (int)rng.below(60); for (int i = 0; i < n; ++i) tail += (i % 7 == 0) ? " " : "\xE3\x81\x82"; w[15] += tail; break; }   // a long pasted note after the phrase (over-long once decomposed)
@@ -186,10 +197,12 @@ struct G {
     }
 
     // ---- operations with model tracking
+    bool zero_on_invalid = false;
     void config(int fill, int kdfm, int fulllen = 0) {
         Op& o = emit(OP_CONFIG, 0, 0);
         // swarm over environment knobs: block alignment (8 mod 16), LIFO address reuse, time zone of the process
         u64 knobs = (rng.chance(1, 4) ? 1ull << 10 : 0) | (rng.chance(1, 3) ? 1ull << 11 : 0) | ((rng.chance(1, 3) ? rng.below(4) : 0) << 12);
+        if (zero_on_invalid) knobs |= 1ull << 14;
         o.a = (u64)fill | ((u64)kdfm << 8) | ((u64)fulllen << 9) | knobs; o.b = rng.next() >> 1; kdf_mode = kdfm;
     }
     void inject(int gen, unsigned opt) { Op& o = emit(OP_INJECT, 0, 0); o.a = gen; o.b = opt; }
@@ -269,7 +282,7 @@ static void walk(G& g, int nops, const Weights& w, bool allow_reinject) {
         if (take(w.create)) { if (fs >= 0) { std::vector<u64> c{g.clock_reading()}; if (g.rng.chance(1, 8)) c.push_back(g.clock_reading()); g.create(t, fs, g.rng.chance(3, 4) ? g.rng.below(8) : g.rng.next(), g.secret_kind(), c); } }
         else if (take(w.load)) { if (fs >= 0 && ls >= 0) g.load_seed(t, fs, g.seeds[{t, ls}]); }
         else if (take(w.loadbad)) { if (fs >= 0) { AbsSeed sd = ls >= 0 ? g.seeds[{t, ls}] : g.fabricate((unsigned)g.rng.below(8)); u8 b[32]; model::serialise(sd, b); g.mutate_image(b); if (g.rng.chance(1, 6)) for (auto& x : b) x = (u8)g.rng.next(); g.load_bytes(t, fs, b); } }
-        else if (take(w.decode)) { if (fs >= 0 && ls >= 0) { int li = g.pick_lang(); unsigned coin = g.pick_coin(); std::string p = g.valid_phrase(g.seeds[{t, ls}], li, coin, (int)g.rng.below(64)); g.decode(t, fs, p, coin, g.rng.chance(1, 2) ? -1 : li, g.rng.chance(1, 8)); } }
+        else if (take(w.decode)) { if (fs >= 0 && ls >= 0) { int li = g.pick_lang(); unsigned coin = g.pick_coin(); std::string p = g.valid_phrase(g.seeds[{t, ls}], li, coin, (int)g.rng.below(256)); g.decode(t, fs, p, coin, g.rng.chance(1, 2) ? -1 : li, g.rng.chance(1, 8)); } }
         else if (take(w.decodebad)) {
             if (fs >= 0) {
                 int li = g.pick_lang(); unsigned coin = g.pick_coin();
@@ -279,7 +292,7 @@ static void walk(G& g, int nops, const Weights& w, bool allow_reinject) {
                 case 0: p = g.junk_phrase(); break;
                 case 1: p = g.valid_phrase(sd, li, coin, 0); coin = (coin + 1 + (unsigned)g.rng.below(2047)) & 2047; break;      // wrong coin
                 case 2: { p = g.valid_phrase(sd, li, coin, 0); int lj = g.pick_lang(); g.decode(t, fs, p, coin, lj); continue; } // explicit decoding in another language
-                default: p = g.broken_phrase(sd, li, coin, (int)g.rng.below(13));
+                default: p = g.broken_phrase(sd, li, coin, (int)g.rng.below(15));
                 }
                 g.decode(t, fs, p, coin, g.rng.chance(1, 2) ? -1 : li);
             }
@@ -356,7 +369,7 @@ static Plan make_concurrent(G& g, const char* prop) {
         if (g.live(t, 1)) g.free_seed(t, 1);
         if (p == "C12" && g.rng.chance(1, 2)) { g.crypt(t, 0, g.password()); g.store(t, 0); g.emit(OP_ISENC, t, 0); continue; }
         if (p == "C11" && g.rng.chance(2, 3)) { if (g.live(t, 2)) g.free_seed(t, 2); g.create(t, 2, g.rng.below(8), g.secret_kind(), {clk()}); if (g.live(t, 2)) g.emit(OP_GETB, t, 2); continue; }
-        if (g.rng.chance(1, 2)) g.decode(t, 1, g.valid_phrase(sd, li, coin, (int)g.rng.below(64)), coin, g.rng.chance(1, 2) ? -1 : li);
+        if (g.rng.chance(1, 2)) g.decode(t, 1, g.valid_phrase(sd, li, coin, (int)g.rng.below(256)), coin, g.rng.chance(1, 2) ? -1 : li);
         else g.load_seed(t, 1, sd);
         if (g.live(t, 1)) { g.emit(OP_GETB, t, 1); { Op& o = g.emit(OP_GETF, t, 1); o.a = 7; } g.emit(OP_ISENC, t, 1); g.store(t, 1); }
     }
@@ -364,7 +377,9 @@ static Plan make_concurrent(G& g, const char* prop) {
 }
 
 // ------------------------------------------------------------------------------------------------ per property
+static Plan make_C20(u64 seed, int variant);
 static Plan make_C13(u64 seed, int variant) {
+    if (variant >= 584 && variant % 16 == 15) { Plan p = make_C20(seed, (int)(seed % 299)); p.prop = "C13"; return p; }     // seeds of several threads must not affect each other either
     G g(seed); g.plan.prop = "C13";
     choose_langs(g);
     if (variant < 584) {
@@ -379,7 +394,7 @@ static Plan make_C13(u64 seed, int variant) {
             switch (letter) {
             case 0: if (l0) g.free_seed(0, 0); g.create(0, 0, g.rng.below(2), g.secret_kind(), {g.clock_reading()}); break;
             case 1: if (!l0) g.create(0, 0, 1, 0, {g.clock_reading()});
-                    if (g.live(0, 0)) { if (g.live(0, 1)) g.free_seed(0, 1); AbsSeed sd = g.seeds[{0, 0}]; int li = g.pick_lang(); unsigned coin = g.pick_coin(); g.encode(0, 0, li, coin); g.decode(0, 1, g.valid_phrase(sd, li, coin, (int)g.rng.below(64)), coin, g.rng.chance(1, 2) ? -1 : li); } break;
+                    if (g.live(0, 0)) { if (g.live(0, 1)) g.free_seed(0, 1); AbsSeed sd = g.seeds[{0, 0}]; int li = g.pick_lang(); unsigned coin = g.pick_coin(); g.encode(0, 0, li, coin); g.decode(0, 1, g.valid_phrase(sd, li, coin, (int)g.rng.below(256)), coin, g.rng.chance(1, 2) ? -1 : li); } break;
             case 2: if (!l0) g.create(0, 0, 1, 0, {g.clock_reading()});
                     if (g.live(0, 0)) { if (g.live(0, 1)) g.free_seed(0, 1); g.store(0, 0); g.load_seed(0, 1, g.seeds[{0, 0}]); } break;
             case 3: if (!l0) g.create(0, 0, 1, 0, {g.clock_reading()}); if (g.live(0, 0)) { g.crypt(0, 0, g.password()); g.store(0, 0); } break;
@@ -440,7 +455,7 @@ static Plan make_C04(u64 seed, int variant) {
         if (g.live(t, nxt)) g.free_seed(t, nxt);
         AbsSeed sd = g.seeds[{t, cur}];
         switch (g.rng.below(7)) {
-        case 0: { int li = g.pick_lang(); unsigned coin = g.pick_coin(); g.encode(t, cur, li, coin); g.decode(t, nxt, g.valid_phrase(sd, li, coin, (int)g.rng.below(64)), coin, g.rng.chance(1, 2) ? -1 : li); break; }
+        case 0: { int li = g.pick_lang(); unsigned coin = g.pick_coin(); g.encode(t, cur, li, coin); g.decode(t, nxt, g.valid_phrase(sd, li, coin, (int)g.rng.below(256)), coin, g.rng.chance(1, 2) ? -1 : li); break; }
         case 1: g.store(t, cur); g.load_seed(t, nxt, sd); break;
         case 2: { std::string pw = g.password(); g.crypt(t, cur, pw); kg(cur); g.crypt(t, cur, pw); nxt = cur; break; }
         case 3: { std::string pw = g.password(); g.crypt(t, cur, pw); nxt = cur; break; }
@@ -521,7 +536,7 @@ static Plan make_C11(u64 seed, int variant) {
             int n2 = g.free_slot(t);
             AbsSeed sd = g.seeds[{t, s}];
             switch (g.rng.below(4)) {
-            case 0: if (n2 >= 0) { int li = g.pick_lang(); unsigned coin = g.pick_coin(); g.encode(t, s, li, coin); g.decode(t, n2, g.valid_phrase(sd, li, coin, (int)g.rng.below(64)), coin, g.rng.chance(1, 2) ? -1 : li); if (g.live(t, n2)) { g.emit(OP_GETB, t, n2); } } break;
+            case 0: if (n2 >= 0) { int li = g.pick_lang(); unsigned coin = g.pick_coin(); g.encode(t, s, li, coin); g.decode(t, n2, g.valid_phrase(sd, li, coin, (int)g.rng.below(256)), coin, g.rng.chance(1, 2) ? -1 : li); if (g.live(t, n2)) { g.emit(OP_GETB, t, n2); } } break;
             case 1: if (n2 >= 0) { g.store(t, s); g.load_seed(t, n2, sd); if (g.live(t, n2)) g.emit(OP_GETB, t, n2); } break;
             case 2: g.crypt(t, s, g.password()); g.emit(OP_GETB, t, s); break;
             default: g.emit(OP_GETB, t, s); break;
@@ -562,7 +577,7 @@ static Plan make_C12(u64 seed, int variant) {
             int n2 = g.free_slot(t);
             AbsSeed sd = g.seeds[{t, s}];
             switch (g.rng.below(7)) {
-            case 0: if (n2 >= 0) { int li = g.pick_lang(); unsigned coin = g.pick_coin(); g.encode(t, s, li, coin); g.decode(t, n2, g.valid_phrase(sd, li, coin, (int)g.rng.below(64)), coin, g.rng.chance(1, 2) ? -1 : li); if (g.live(t, n2)) { g.store(t, n2); if (g.rng.chance(1, 2)) { g.crypt(t, n2, use); g.store(t, n2); g.keygen(t, n2, g.pick_coin(), 32); } g.free_seed(t, n2); } } break;
+            case 0: if (n2 >= 0) { int li = g.pick_lang(); unsigned coin = g.pick_coin(); g.encode(t, s, li, coin); g.decode(t, n2, g.valid_phrase(sd, li, coin, (int)g.rng.below(256)), coin, g.rng.chance(1, 2) ? -1 : li); if (g.live(t, n2)) { g.store(t, n2); if (g.rng.chance(1, 2)) { g.crypt(t, n2, use); g.store(t, n2); g.keygen(t, n2, g.pick_coin(), 32); } g.free_seed(t, n2); } } break;
             case 1: if (n2 >= 0) { g.load_seed(t, n2, sd); if (g.live(t, n2)) { if (g.rng.chance(1, 2)) { g.crypt(t, n2, use); g.store(t, n2); g.keygen(t, n2, g.pick_coin(), 32); } g.free_seed(t, n2); } } break;
             case 2: g.inject((int)g.rng.below(3), (unsigned)g.rng.below(8)); break;
             case 3: g.emit(OP_GETB, t, s); { Op& o = g.emit(OP_GETF, t, s); o.a = 7; } break;
@@ -581,6 +596,27 @@ static Plan make_C15(u64 seed, int variant) {
     // every history is subjected to the single-fault enumeration; two thirds carry sampled faults of their own as well
     static const int rates[] = {0, 5, 20, 50, 100};
     g.alloc_fail_pct = (variant % 3 == 0) ? 0 : rates[1 + g.rng.below(4)];     // a third of the histories are fault-free before the enumeration adds its single fault
+    if (variant % 125 == 124) {
+        // many seeds alive at once (several hundred), then all released in random order
+        g.plan.ntasks = g.ntasks = 5 + (int)g.rng.below(4);
+        g.alloc_fail_pct = 0;
+        prologue(g, 1 + (int)g.rng.below(3), 0, (int)g.rng.below(3), (unsigned)g.rng.below(8), 7);
+        std::vector<std::pair<int, int>> all;
+        for (int t = 0; t < g.ntasks; ++t) {
+            int n = 40 + (int)g.rng.below(21);
+            for (int i = 0; i < n; ++i) {
+                int s = g.free_slot_wide(t); if (s < 0) break;
+                int k = (int)g.rng.below(3);
+                if (k == 0 || all.empty()) g.create(t, s, g.rng.below(8), g.secret_kind(), {g.clock_reading()});
+                else if (k == 1) g.load_seed(t, s, g.fabricate((unsigned)g.rng.below(8)));
+                else { AbsSeed sd = g.fabricate((unsigned)g.rng.below(8)); int li = g.pick_lang(); unsigned coin = g.pick_coin(); g.decode(t, s, g.valid_phrase(sd, li, coin, 0), coin, g.rng.chance(1, 2) ? -1 : li); }
+                if (g.live(t, s)) all.push_back({t, s});
+            }
+        }
+        for (size_t i = all.size(); i > 1; --i) std::swap(all[i - 1], all[g.rng.below(i)]);
+        for (auto& ts : all) { if (g.rng.chance(1, 10)) g.store(ts.first, ts.second); g.free_seed(ts.first, ts.second); }
+        return g.plan;
+    }
     prologue(g, 1 + (int)g.rng.below(3), (int)g.rng.below(2), (int)g.rng.below(3), (unsigned)g.rng.below(8), g.rng.below(8));
     Weights w; w.create = 10; w.load = 8; w.loadbad = 8; w.decode = 10; w.decodebad = 10; w.fabricate = 10; w.free_ = 10; w.freenull = 3; w.keygen = 1; w.get = 1; w.enable = 4;
     walk(g, (variant != 0 && variant % 250 == 249) ? 800 + (int)g.rng.below(800) : 4 + (int)g.rng.below(30), w, true);
@@ -599,9 +635,17 @@ static Plan make_C16(u64 seed, int variant) {
     g.alloc_fail_pct = (variant % 2) ? 25 : 0;
     prologue(g, 2, 0, (int)g.rng.below(3), 7, g.rng.below(8));
     bool fulllen = g.rng.chance(1, 3);
-    if (fulllen) g.config(2, 0, 1);
+    bool badpw = g.rng.chance(1, 4);
+    if (badpw) g.zero_on_invalid = true;
+    if (fulllen || badpw) g.config(2, 0, fulllen ? 1 : 0);
     Weights w; w.create = 10; w.load = 8; w.loadbad = 6; w.decode = 12; w.decodebad = 12; w.fabricate = 8; w.encode = 10; w.crypt = 8; w.keygen = 4; w.store = 4; w.free_ = 10; w.get = 1; w.enable = 2; w.inject = 0; w.langq = 0;
     walk(g, 4 + (int)g.rng.below(24), w, false);
+    if (badpw) {
+        // a password in a legacy encoding (Latin-1): an ASCII prefix followed by bytes that are not UTF-8
+        int t = 0, ls = g.live_slot(t);
+        if (ls < 0) { ls = 0; g.create(t, ls, 0, 0, {g.clock_reading()}); }
+        if (g.live(t, ls)) { std::string pw = g.ascii_pw(); pw += "\xE9"; if (g.rng.chance(1, 2)) pw += g.ascii_pw(); Op& o = g.emit(OP_CRYPT, t, ls); o.data.assign(pw.begin(), pw.end()); g.seeds.erase({t, ls}); }
+    }
     if (fulllen || g.rng.chance(1, 8)) {
         // over-long inputs: the exits taken when the normalised text does not fit
         int t = 0, fs = g.free_slot(t);
@@ -646,6 +690,8 @@ static Plan make_C18(u64 seed, int variant) {
     }
     // single-bit random outputs make every bit position count
     for (auto& o : g.plan.ops) if (o.kind == OP_CREATE && g.rng.chance(1, 3)) o.data = g.secret_bytes(g.rng.chance(1, 2) ? 3 : 4);
+    // now and then the environment injects from inside a dependency (lazy bootstrap in the allocator hook)
+    for (auto& o : g.plan.ops) if ((o.kind == OP_CREATE || o.kind == OP_LOAD || o.kind == OP_DECODE || o.kind == OP_DECODEX) && g.rng.chance(1, 12)) o.reinj = 1 + g.rng.below(3) * 8 + g.rng.below(8);
     // (the generator's seed tracking for those creates is not needed: later operations carry explicit inputs)
     return g.plan;
 }
@@ -659,9 +705,28 @@ static Plan make_C20(u64 seed, int variant) {
     // per task scripts: the walk alternates tasks, each touches only its own slots
     Weights w; w.enable = 0; w.inject = 0; w.langq = 1; w.create = 10; w.decode = 14; w.decodebad = 6; w.encode = 10; w.keygen = 8; w.crypt = 6; w.load = 6; w.store = 5; w.free_ = 6; w.fabricate = 4;
     int per = 3 + (int)g.rng.below(6);
+    if (variant % 300 == 299) {
+        // soak: thousands of decodes in one history, traffic in two languages (counters, adaptive tables, periodic maintenance)
+        g.plan.ntasks = g.ntasks = 2 + (int)g.rng.below(3);
+        int la = g.pick_lang(), lb = (int)g.rng.below(g.nlangs());
+        int rounds = 4300 / g.ntasks + (int)g.rng.below(200);
+        std::vector<std::vector<std::string>> ph(g.ntasks);
+        std::vector<unsigned> coins(g.ntasks);
+        for (int t = 0; t < g.ntasks; ++t) { AbsSeed sd = g.fabricate(0); coins[t] = g.pick_coin(); ph[t] = {g.valid_phrase(sd, la, coins[t], 0), g.valid_phrase(sd, lb, coins[t], 0)}; }
+        for (int i = 0; i < rounds; ++i) for (int t = 0; t < g.ntasks; ++t) {
+            g.decode(t, 1, ph[t][g.rng.below(2)], coins[t], -1);
+            if (g.live(t, 1)) g.free_seed(t, 1);
+        }
+        return g.plan;
+    }
     if (variant % 3 == 1) {
         // concentrate all threads on one or two entry points, so that they meet inside the same code
-        for (int t = 0; t < g.ntasks; ++t) { if (g.rng.chance(1, 2)) g.create(t, 0, g.rng.below(8), g.secret_kind(), {g.clock_reading()}); else g.load_seed(t, 0, g.fabricate((unsigned)g.rng.below(8))); }
+        bool extreme = g.rng.chance(1, 4);      // all of them at the size limits: the longest phrases there are (Korean or Japanese)
+        if (extreme) { int li = model::lang_by_name_en(g.rng.chance(2, 3) ? "Korean" : "Japanese"); if (li >= 0) g.langs_enabled = {li}; }
+        for (int t = 0; t < g.ntasks; ++t) {
+            if (extreme) { AbsSeed sd; bytes b = g.secret_bytes(6); memcpy(sd.secret, b.data(), 19); sd.secret[18] &= 0x3F; sd.features = 0; sd.birthday = (unsigned)g.rng.below(1024); g.load_seed(t, 0, sd); }
+            else if (g.rng.chance(1, 2)) g.create(t, 0, g.rng.below(8), g.secret_kind(), {g.clock_reading()}); else g.load_seed(t, 0, g.fabricate((unsigned)g.rng.below(8)));
+        }
         int k1 = (int)g.rng.below(7), k2 = (int)g.rng.below(7);
         for (int i = 0; i < per; ++i) for (int t = 0; t < g.ntasks; ++t) {
             if (!g.live(t, 0)) continue;
@@ -671,8 +736,8 @@ static Plan make_C20(u64 seed, int variant) {
             switch (k) {
             case 0: g.keygen(t, 0, coin, 32); break;
             case 1: g.encode(t, 0, li, coin); break;
-            case 2: if (g.live(t, 1)) g.free_seed(t, 1); g.decode(t, 1, g.valid_phrase(sd, li, coin, (int)g.rng.below(64)), coin, -1); break;
-            case 3: if (g.live(t, 1)) g.free_seed(t, 1); g.decode(t, 1, g.valid_phrase(sd, li, coin, (int)g.rng.below(64)), coin, li); break;
+            case 2: if (g.live(t, 1)) g.free_seed(t, 1); g.decode(t, 1, g.valid_phrase(sd, li, coin, (int)g.rng.below(256)), coin, -1); break;
+            case 3: if (g.live(t, 1)) g.free_seed(t, 1); g.decode(t, 1, g.valid_phrase(sd, li, coin, (int)g.rng.below(256)), coin, li); break;
             case 4: g.crypt(t, 0, g.password()); break;
             case 5: if (g.live(t, 1)) g.free_seed(t, 1); g.load_seed(t, 1, sd); break;
             default: g.store(t, 0); if (g.live(t, 2)) g.free_seed(t, 2); g.create(t, 2, g.rng.below(8), g.secret_kind(), {g.clock_reading()}); break;
